@@ -10,6 +10,7 @@ import (
 
 	"verifmc/explore"
 	"verifmc/peer"
+	"verifmc/wire"
 )
 
 // C33, "the subsequent Read": after a completed TLS <= 1.2 handshake the server speaks out of
@@ -591,6 +592,78 @@ func c33CookieSweep() *explore.Scenario {
 				r.Count("cookie_sweep_completed", 1)
 			}
 			r.Obs = "c=" + errClass(hs.CErr)
+			return
+		},
+	}
+}
+
+// c33TicketWithoutSession — the client offers a session ticket it has no session state for (a ticket set
+// with SetSessionTicketExtension and nothing else), and a TLS 1.2 server answers with a ServerHello that
+// echoes the client's legacy session id, i.e. claims to resume. Handshake must return, not panic.
+func c33TicketWithoutSession() *explore.Scenario {
+	var clients []gridClient
+	for _, n := range AllIDs() {
+		switch n.Name {
+		case "HelloChrome_100", "HelloFirefox_105", "HelloChrome_133", "HelloIOS_14", "HelloChrome_58":
+			clients = append(clients, gridClient{Name: n.Name, ID: n.ID})
+		}
+	}
+	return &explore.Scenario{
+		Name:     "ticket-without-session-and-a-server-claiming-to-resume",
+		Watchdog: 60 * time.Second, HangSig: "C33|hang|ticket-only",
+		Run: func(x *explore.X) (r explore.Result) {
+			g := clients[x.Choose("client", len(clients))]
+			inject := x.Choose("ticket", 2) // 0 none, 1 a ticket without session state
+			vers := []uint16{tls.VersionTLS12, tls.VersionTLS11}[x.Choose("version", 2)]
+			what := fmt.Sprintf("%s at %04x ticket-injection=%d, ServerHello echoes the client's session id", g.Name, vers, inject)
+			ccfg := g.config("example.com")
+			ccfg.MinVersion = tls.VersionTLS10
+			ccfg.ClientSessionCache = tls.NewLRUClientSessionCache(2)
+			scfg := peer.ServerConfig()
+			scfg.MaxVersion = vers
+			var ce *peer.Endpoint
+			hs := peer.Run(ccfg, g.ID, scfg, peer.Opts{
+				WrapClient: func(e *peer.Endpoint) { ce = e },
+				WrapServer: func(e *peer.Endpoint) {
+					e.Transform = func(n int, b []byte) []byte {
+						if n != 0 || len(b) < 5+4+2+32+1 || b[0] != 22 || b[5] != 2 || ce == nil {
+							return b
+						}
+						msgs := peer.ClientHelloMsgs(ce.AllWritten())
+						if len(msgs) == 0 {
+							return b
+						}
+						ch, err := wire.ParseClientHello(msgs[0])
+						if err != nil || len(ch.SessionID) == 0 {
+							return b
+						}
+						recLen := int(b[3])<<8 | int(b[4])
+						sh, ok := parseServerHello(b[5 : 5+4+(int(b[6])<<16|int(b[7])<<8|int(b[8]))])
+						if !ok {
+							return b
+						}
+						shLen := 4 + (int(b[6])<<16 | int(b[7])<<8 | int(b[8]))
+						sh.setSessionID(ch.SessionID)
+						nsh := sh.build()
+						rest := b[5+shLen : 5+recLen]
+						body := append(append([]byte(nil), nsh...), rest...)
+						out := append([]byte{22, b[1], b[2], byte(len(body) >> 8), byte(len(body))}, body...)
+						return append(out, b[5+recLen:]...)
+					}
+				},
+				Prepare: func(u *tls.UConn) error {
+					if inject == 0 {
+						return nil
+					}
+					u.SetSessionTicketExtension(&tls.SessionTicketExtension{Ticket: rep(0x7c, 120), Initialized: true})
+					return nil
+				}})
+			r.Nontrivial = true
+			r.Class = what
+			if hs.CPanic != "" {
+				r.Violate("C33|client-panic|ticket-without-session|"+errClass(fmt.Errorf("%s", firstLineOf(hs.CPanic))), "%s: %s", what, truncStr(hs.CPanic, 600))
+			}
+			r.Obs = fmt.Sprintf("inject=%d|err=%v", inject, hs.CErr != nil)
 			return
 		},
 	}
